@@ -133,6 +133,36 @@ class FakeZarrGroup:
         return self
 
 
+def fake_numpy():
+    """Minimal stand-in for numpy (absent here): just what numpy_utils.py touches. Lets C19 exercise the
+    instance-dependent classification of arrays (0-d vs n-d) and the cache blocklist."""
+    np = types.ModuleType("numpy")
+
+    class ndarray:  # noqa: N801
+        def __init__(self, data, ndim):
+            self._d, self.ndim = data, ndim
+
+        def tolist(self):
+            return self._d
+
+        def item(self):
+            return self._d
+
+    class number:  # noqa: N801
+        def __init__(self, v):
+            self._v = v
+
+        def item(self):
+            return self._v
+
+    class bool_(number):  # noqa: N801
+        pass
+    np.ndarray, np.number, np.bool_ = ndarray, number, bool_
+    np.iscomplexobj = lambda x: isinstance(getattr(x, "_d", getattr(x, "_v", x)), complex)
+    np.__fake__ = True
+    return np
+
+
 def install():
     """Put the tree under test first on sys.path and register the fake third-party modules."""
     global _installed
@@ -153,6 +183,8 @@ def install():
         bson.errors = errors
         sys.modules["bson"] = bson
         sys.modules["bson.errors"] = errors
+    if os.environ.get("VERIF_FAKE_NUMPY") and "numpy" not in sys.modules:
+        sys.modules["numpy"] = fake_numpy()
     if "numcodecs" not in sys.modules:
         nc = types.ModuleType("numcodecs")
         nc.JSON = FakeJSONCodec
